@@ -166,7 +166,8 @@ struct CallCfg {
   int pool = 3;
   int api = 0; // 0: (start,end) overload  1: ChunkedRange overload  2: states overload
   bool concurrentSet = false;
-  bool nested = false; // issue the call from inside a parallel_for body on the same pool
+  int nested = 0; // 1: issue the call from inside a parallel_for body on the same pool (inline path)
+                  // 2: issue it from a plain task running on a worker of the same pool (rec = 2)
 };
 
 template <class T>
@@ -234,7 +235,7 @@ static std::shared_ptr<RecCtx> makeCtx(T s, T e, const CallCfg& cc, size_t poolT
       cc.opt.granularity,
       poolThreads,
       dispenso::CpuSet::l3CacheGroups().size(),
-      cc.nested ? 1 : 0,
+      cc.nested,
       cc.api + (cc.concurrentSet ? 10 : 0));
   c->head = buf;
   return c;
@@ -301,7 +302,19 @@ static void runCase(Pools& pools, T s, T e, const CallCfg& cc) {
       invoke<T>(ts, s, e, cc, c);
     }
   };
-  if (cc.nested) {
+  if (cc.nested == 2) {
+    // the call is made by a pool worker that is NOT inside a parallel loop: the full parallel path runs
+    // with a caller that has a ring index of its own (caller-chunk selection of the static path)
+    std::atomic<int> done{0};
+    pool.schedule(
+        [&]() {
+          call();
+          done.store(1, std::memory_order_release);
+        },
+        dispenso::ForceQueuingTag());
+    while (!done.load(std::memory_order_acquire))
+      std::this_thread::yield();
+  } else if (cc.nested) {
     // the call is made from a body of an enclosing parallel_for on the same pool
     dispenso::TaskSet outer(pool);
     std::atomic<int> once{0};
@@ -507,10 +520,15 @@ static void suiteNest(Pools& pools, Rng& r, int n) {
   for (int k = 0; k < n; ++k) {
     T s = (T)r.below(50);
     T e = (T)(s + (T)r.below(120));
-    CallCfg cc = randCfg(r, (Mode)r.below(3), 1000);
-    cc.nested = true;
+    CallCfg cc = randCfg(r, (Mode)r.below(3), (long long)std::min<i128>((i128)std::numeric_limits<T>::max(), 1000));
+    cc.nested = 1 + (k & 1);
     if (cc.pool == 0)
       cc.pool = 2;
+    if (cc.nested == 2 && r.below(2)) {
+      // fewer chunks than pool threads: the calling worker's ring index can exceed the chunk count
+      cc.pool = r.pick<int>({3, 5, 8});
+      cc.opt.maxThreads = r.pick<uint32_t>({2u, 2u, 3u});
+    }
     runCase<T>(pools, s, e, cc);
   }
 }
